@@ -383,3 +383,101 @@ def lumped_load(draw, kinds=('z', 'rlc', 'trap', 'laplace'), passive=True):
     b = [r6(draw(logf(1e-3, 1e3)) * (1e-7 ** i)) for i in range(order + 1)]
     a = [r6(draw(logf(1e-3, 1e3)) * (1e-7 ** i)) for i in range(draw(st.integers(1, order + 1)))]
     return {'kind': 'laplace', 'a': a, 'b': b}
+
+
+# ---------------------------------------------------------------------------
+# antennas containing an arc or a helix
+
+@st.composite
+def curve_antenna(draw, env_kinds=('free', 'ideal'), nsrc=(1, 2), src_form='any', tag_styles=None, max_seg=10,
+                  attach=True):
+    f = draw(frequency())
+    lam = C_MHZ_M / f
+    env = draw(environment(env_kinds))
+    ground = env['kind'] != 'free'
+    sl = draw(logf(1 / 150., 1 / 12.))          # segment length in wavelengths
+    kind = draw(st.sampled_from(['arc', 'arc', 'helix']))
+    objs = []
+    xforms = []
+    info = {'template': kind}
+    r = draw(logf(1e-6, sl / 8.0))
+    wires_after = []
+    if kind == 'arc':
+        n = draw(st.integers(3, max_seg))
+        shape = draw(st.sampled_from(['open', 'open', 'closed', 'half-on-ground'] if ground else ['open', 'open', 'closed']))
+        if shape == 'closed':
+            span = 360.0
+            n = max(n, 5)
+        elif shape == 'half-on-ground':
+            span = 180.0
+            n = max(n, 4)
+        else:
+            span = draw(st.floats(40.0, 300.0))
+        R = sl / (2 * math.sin(math.radians(span / n) / 2))
+        a1 = 0.0 if shape == 'half-on-ground' else r6(draw(st.floats(-180, 180)))
+        arc = dict(type='arc', n=n, R=r6(R * lam), a1=a1, a2=r6(a1 + span) if shape != 'closed' else a1 + 360.0,
+                   r=r6(r * lam), tag=None)
+        objs.append(arc)
+        info['arc'] = shape
+        pts = rgeo.arc_points(arc)
+        if attach and shape == 'open':
+            for e in draw(st.sampled_from([[], [0], [-1], [0, -1]])):
+                nn = draw(st.integers(1, 5))
+                s2 = sl * draw(st.sampled_from([1.0, 0.7, 1.4]))
+                d = np.array([0.0, draw(st.sampled_from([1.0, -1.0])), 0.0])
+                p = pts[e]
+                q = p + d * nn * s2 * lam
+                w = dict(type='wire', n=nn, p1=[r6(x) for x in p], p2=[r6(x) for x in q], r=r6(r * lam * draw(st.sampled_from([1.0, 0.5, 2.0]))),
+                         tag=None, taper=0, tmin=None, tmax=None)
+                w['p1'] = [float(x) for x in p]      # exact junction with the arc end
+                if draw(st.booleans()):
+                    w['p1'], w['p2'] = w['p2'], w['p1']
+                wires_after.append(w)
+        zmin = float(pts[:, 2].min())
+        lift_needed = shape != 'half-on-ground'
+    else:
+        k = draw(st.integers(5, 10))                 # segments per turn
+        turns = draw(st.floats(0.5, 3.0))
+        n = max(3, int(round(turns * k)))
+        T = draw(st.floats(1.5, 6.0)) * sl           # turn length
+        circ = math.sqrt(max((k * sl) ** 2 - T ** 2, (0.5 * k * sl) ** 2))
+        rho = circ / (2 * math.pi)
+        ell = draw(st.sampled_from([1.0, 1.0, 0.8, 1.25]))
+        h = dict(type='helix', n=n, len=r6(n / k * T * lam * draw(st.sampled_from([1, 1, -1]))),
+                 turn=r6(T * lam * draw(st.sampled_from([1, 1, -1]))), r=r6(min(r, T / 8) * lam),
+                 rx1=r6(rho * lam), ry1=r6(rho * ell * lam), rx2=None, ry2=None, tag=None)
+        if draw(st.integers(0, 2)) == 0:
+            g = draw(st.sampled_from([0.6, 0.8, 1.25, 1.5]))
+            h['rx2'] = r6(rho * g * lam)
+            h['ry2'] = r6(rho * ell * g * draw(st.sampled_from([1.0, 0.9, 1.1])) * lam)
+        objs.append(h)
+        pts = rgeo.helix_points(h)
+        grounded_helix = ground and draw(st.booleans())
+        info['helix_grounded'] = grounded_helix
+        if attach and not grounded_helix and draw(st.booleans()):
+            nn = draw(st.integers(1, 4))
+            p = pts[0]
+            d = p.copy()
+            d[2] = 0
+            d = d / np.linalg.norm(d)
+            q = p + d * nn * sl * lam
+            w = dict(type='wire', n=nn, p1=[float(x) for x in p], p2=[r6(x) for x in q], r=h['r'], tag=None, taper=0,
+                     tmin=None, tmax=None)
+            if draw(st.booleans()):
+                w['p1'], w['p2'] = w['p2'], w['p1']
+            wires_after.append(w)
+        zmin = 0.0
+        lift_needed = not grounded_helix
+    objs += wires_after
+    case = {'f': f, 'env': env, 'objs': objs, 'xforms': xforms, 'scales': [], 'sources': [], 'loads': []}
+    style = draw(tags(objs, tag_styles or ('auto', 'consecutive', 'sparse', 'permuted', 'mixed')))
+    if ground and lift_needed:
+        hgt = (sl * draw(st.floats(1.1, 5.0))) * lam - zmin
+        xforms.append({'kind': 'translate', 'key': 1.0, 'v': [0.0, 0.0, r6(hgt)], 'tag': None})
+    elif not ground and draw(st.booleans()):
+        xforms.append({'kind': 'rotate', 'key': 1.0, 'v': [r6(draw(st.floats(0, 360))), r6(draw(st.floats(0, 360))), 0.0], 'tag': None})
+        xforms.append({'kind': 'translate', 'key': 2.0, 'v': [r6(draw(st.floats(-3, 3)) * lam) for _ in range(3)], 'tag': None})
+    if nsrc[1] > 0:
+        draw(sources(case, nsrc[0], nsrc[1], src_form))
+    case['_info'] = dict(info, tag_style=style, tapered=False)
+    return case
